@@ -160,13 +160,19 @@ func (v *VerifFilter) Push(id, size int, tcp bool) {
 	data := make([]byte, size)
 	data[0], data[1], data[2], data[3] = byte(id>>24), byte(id>>16), byte(id>>8), byte(id)
 	var c Chunk
+	stamp := time.Time{}
+	if id%3 == 0 {
+		stamp = time.Now().Add(-time.Hour) // stamped long ago by an upstream router
+	}
 	if tcp {
 		tc := newChunkTCP(&net.TCPAddr{IP: net.IPv4(1, 2, 3, 4), Port: 1000 + id%7}, &net.TCPAddr{IP: net.IPv4(5, 6, 7, 8), Port: 80}, tcpSYN|tcpACK)
 		tc.userData = data
+		tc.timestamp = stamp
 		c = tc
 	} else {
 		uc := newChunkUDP(&net.UDPAddr{IP: net.IPv4(1, 2, 3, 4), Port: 1000 + id%7}, &net.UDPAddr{IP: net.IPv4(5, 6, 7, 8), Port: 80})
 		uc.userData = data
+		uc.timestamp = stamp
 		c = uc
 	}
 	v.Sink.mu.Lock()
@@ -243,6 +249,10 @@ func (v *VerifDelayRouter) Push(id, size int) {
 	data[0], data[1], data[2], data[3] = byte(id>>24), byte(id>>16), byte(id>>8), byte(id)
 	c := newChunkUDP(&net.UDPAddr{IP: net.IPv4(1, 2, 3, 99), Port: 1000}, &net.UDPAddr{IP: net.IPv4(1, 2, 3, 4), Port: 80})
 	c.userData = data
+	if id%3 == 0 {
+		// a chunk that already crossed another router carries that router's (old) time stamp
+		c.timestamp = time.Now().Add(-time.Hour)
+	}
 	v.Sink.mu.Lock()
 	v.Sink.snaps[id] = verifSnap(c)
 	v.Sink.mu.Unlock()
